@@ -389,6 +389,7 @@ def run_rewire(net, tg, slimit, climit, choices, randoms, every_draw=True, adapt
     limits = [mc._search_limit, mc._convergence_limit]
     if not all(isinstance(x, int) for x in limits):
         limits = [-1, -1]
+    votes = []
     rec = Adaptive(adaptive, len(choices), randoms, net["names"]) if adaptive is not None else \
         Recorder(choices, randoms, net["names"], every_draw)
 
@@ -408,6 +409,10 @@ def run_rewire(net, tg, slimit, climit, choices, randoms, every_draw=True, adapt
         r = orig_sc(*a, **k)
         if r:
             rec.pending = True
+            try:
+                votes.append(id_variant(a[0], a[1], a[2], a[3], a[4], mc._proposal_edges))
+            except Exception:  # noqa: BLE001
+                votes.append(2)
         return r
 
     mc.get_all_edges = gae
@@ -452,7 +457,34 @@ def run_rewire(net, tg, slimit, climit, choices, randoms, every_draw=True, adapt
     after = canon_graph(N.G, net["names"])
     return {"status": status, "limits": limits, "events": rec.events, "order": first_order,
             "states": rec.states, "final": final, "before": before, "after": after,
-            "frames": [[_fq(a), _fq(b)] for a, b in rec.frames], "choices_used": list(rec.choices)[:rec.ci]}
+            "frames": [[_fq(a), _fq(b)] for a, b in rec.frames], "choices_used": list(rec.choices)[:rec.ci],
+            "variant": variant_of(votes)}
+
+
+def id_variant(G, e0s, e1s, u0, v0, proposals):
+    """which motif id do the proposal edges carry?  0 = the id of the corner the focal vertex LEAVES behind
+    (crossed ids, /repo as it is), 1 = the id of the motif the focal vertex JOINS (repaired), 2 = neither"""
+    from gcmpy.names.network_names import NetworkNames as NN
+    id0 = G.edges[e0s[0]][NN.MOTIF_IDS]
+    id1 = G.edges[e1s[0]][NN.MOTIF_IDS]
+    crossed = fixed = True
+    for p in proposals:
+        f = p._new_edge[0]
+        own, other = (id0, id1) if f == u0 else (id1, id0)
+        crossed = crossed and p._motif_id == own
+        fixed = fixed and p._motif_id == other
+    return 0 if crossed else 1 if fixed else 2
+
+
+def variant_of(votes):
+    """None = undetermined (mixed / third behaviour); no accepted swap fits either variant -> 0"""
+    if not votes:
+        return 0
+    if all(v == 0 for v in votes):
+        return 0
+    if all(v == 1 for v in votes):
+        return 1
+    return None
 
 
 def _fq(x):
@@ -531,6 +563,8 @@ def run_methods(net, tg, queries):
                     props.append([min(a, b), max(a, b), net["names"].index(t) if t in net["names"] else 97,
                                   p._motif_id, a])
                 item["props"] = props
+                if dec:
+                    item["variant"] = id_variant(G, c0, c1, u0, v0, mc._proposal_edges)
             except BaseException as e:  # noqa: BLE001
                 if type(e).__name__ == "ImplTimeout":
                     raise
@@ -540,12 +574,20 @@ def run_methods(net, tg, queries):
                 raise
             item["exc"] = type(e).__name__
         out.append(item)
-    return {"items": out, "unchanged": canon_graph(G, net["names"]) == before}
+    return {"items": out, "unchanged": canon_graph(G, net["names"]) == before,
+            "variant": variant_of([i["variant"] for i in out if "variant" in i])}
 
 
 # ================================================================== case level (shared by c11.py / c12.py)
 def is_exc(obs):
     return isinstance(obs, list) and len(obs) >= 1 and obs[0] == "!exc"
+
+
+def obs_variant(obs):
+    """0 crossed ids / 1 repaired ids / None undetermined, as observed on the implementation"""
+    if is_exc(obs):
+        return 0
+    return obs.get("variant")
 
 
 def impl(case):
@@ -573,7 +615,7 @@ def model_calls(case, obs, run_entry="c11_run"):
         if es is None:
             es = [[min(a, b), max(a, b), t, m] for a, b, t, m in net["edges"]]
         return [(run_entry, [net["jds"], es, wire_target(case["tg"]), _opt(case["slimit"]), _opt(case["climit"]),
-                             events])]
+                             events, obs_variant(obs) or 0])]
     if is_exc(obs):
         return []
     g0 = canon_net(net)
@@ -584,7 +626,8 @@ def model_calls(case, obs, run_entry="c11_run"):
         qs.append([u0, v0, it.get("c0", []), it.get("c1", []), r])
         cq.append([u0, mids[(min(e0), max(e0))]])
         cq.append([v0, mids[(min(e1), max(e1))]])
-    return [("mcmc_methods", [g0[0], g0[1], wire_target(case["tg"]), qs]), ("mcmc_corners", [g0[1], cq])]
+    return [("mcmc_methods", [g0[0], g0[1], wire_target(case["tg"]), qs, obs_variant(obs) or 0]),
+            ("mcmc_corners", [g0[1], cq])]
 
 
 def model_obs(case, raws):
@@ -606,6 +649,8 @@ def compare(case, obs, mobs):
             return None if not is_exc(obs) or not case.get("valid", True) else f"implementation raised {obs[1]}"
         if is_exc(obs):
             return f"implementation raised {obs[1]} (model: status {mobs['status']}, limits {mobs['limits']})"
+        if obs.get("variant") is None:
+            return "motif ids of the proposal edges follow neither the crossed nor the repaired rule"
         n = len(case["net"]["jds"])
         ist = obs["status"]
         if ist == [3]:
@@ -637,6 +682,8 @@ def compare(case, obs, mobs):
         return "no model answer"
     if not obs["unchanged"]:
         return "method calls modified the graph"
+    if obs.get("variant") is None:
+        return "motif ids of the proposal edges follow neither the crossed nor the repaired rule"
     for qi, (q, it, mm) in enumerate(zip(case["queries"], obs["items"], mobs["methods"])):
         mc0, mc1 = mobs["corners"][2 * qi], mobs["corners"][2 * qi + 1]
         tag = f"query {qi} (u0={q[0]} e0={q[1]} v0={q[2]} e1={q[3]})"
@@ -771,7 +818,13 @@ def gen_invalid(rng):
         # joint degree tuples shorter than the number of topologies -> IndexError on 3-clique edges
         net = dict(net)
         net["jds"] = [j[:1] for j in net["jds"]]
-        tg = [[[k[:1] + k[2:3], q] for k, q in items] for items in tg]
+        tg2 = []
+        for items in tg:
+            d = {}
+            for k, q in items:
+                d.setdefault(tuple(k[:1] + k[2:3]), q)
+            tg2.append([[list(k), q] for k, q in d.items()])
+        tg = tg2
     ch, ra = rand_scripts(rng, 200, 30)
     return {"kind": "run", "net": net, "tg": tg, "slimit": 25, "climit": 5, "choices": ch, "randoms": ra,
             "valid": False, "every_draw": True, "model": True}
